@@ -68,17 +68,23 @@ reg("C02",
          "followed by reads by key and by address in both flavours; non-trivial = a write succeeded")
 
 reg("C16",
-    gen=lambda seed, tier: P.gen_roundtrip_programs(G.Rng(seed + 16), N(tier, 120, 1500), big=N(tier, 0.03, 0.08)),
-    monitors=[P.mon_roundtrip],
+    gen=lambda seed, tier: (P.gen_roundtrip_programs(G.Rng(seed + 16), N(tier, 120, 1500), big=N(tier, 0.03, 0.08)) +
+                            P.gen_coexist_programs(G.Rng(seed + 161), N(tier, 60, 600))),
+    monitors=[P.mon_roundtrip, P.mon_coexist],
     nontrivial=lambda rr: has(rr, ("write", "write_hash", "wcommit"), ("ok",)),
-    rule="as C02; the returned integrity is compared with hashlib's digest")
+    rule="as C02; the returned integrity is compared with hashlib's digest; plus histories storing the SAME bytes under "
+         "2-5 algorithms through mixed entry points: each address is the asked algorithm's digest whatever the cache holds, "
+         "all copies read back, and remove_hash of one algorithm's copy leaves the others present and readable")
 
 reg("C05",
-    gen=lambda seed, tier: P.gen_history_programs(G.Rng(seed + 5), N(tier, 60, 600), maxlen=N(tier, 14, 40)),
-    monitors=[P.mon_history],
+    gen=lambda seed, tier: (P.gen_history_programs(G.Rng(seed + 5), N(tier, 60, 600), maxlen=N(tier, 14, 40)) +
+                            P.gen_bucket_programs(G.Rng(seed + 51), N(tier, 60, 600))),
+    monitors=[lambda rr: P.mon_bucket(rr) if "damage" in rr.prog.tags else P.mon_history(rr)],
     nontrivial=lambda rr: has(rr, ("remove",), ("ok",)) and has(rr, ("write", "wcommit"), ("ok",)),
     rule="random histories of keyed writes (all entry points, mixed flavours) and removals over 2-5 keys and 3 values; "
          "after every step metadata+read of every key (and sometimes a listing) are judged by a dictionary model; "
+         "plus histories whose bucket carries a torn / damaged record in the middle (what crashes leave behind): the lookup "
+         "still returns the last undamaged record of the key, before and after a further append; "
          "non-trivial = at least one write and one removal succeeded")
 
 reg("C09",
@@ -101,7 +107,12 @@ reg("C20",
     gen=lambda seed, tier: (P.gen_hostile_state_programs(G.Rng(seed + 23), N(tier, 18, 36)) +
                             P.gen_roundtrip_programs(G.Rng(seed + 20), N(tier, 60, 400)) +
                             P.gen_history_programs(G.Rng(seed + 21), N(tier, 30, 200), full=True) +
-                            P.gen_damage_programs(G.Rng(seed + 22), N(tier, 30, 200))),
+                            P.gen_damage_programs(G.Rng(seed + 22), N(tier, 30, 200)) +
+                            P.gen_commit_programs(G.Rng(seed + 24), N(tier, 40, 400), big=N(tier, 0.03, 0.1)) +
+                            P.gen_size_matrix(G.Rng(seed + 25)) +
+                            P.gen_abandon_programs(G.Rng(seed + 26), N(tier, 20, 200)) +
+                            P.gen_bucket_programs(G.Rng(seed + 27), N(tier, 30, 300)) +
+                            P.gen_metadata_programs(G.Rng(seed + 28), N(tier, 30, 300))),
     monitors=[],
     rule="every program of the other streams plus hostile on-disk states (foreign checksummed records with 9 kinds of "
          "odd integrity text, directories / files where the other is expected), judged on panic / hang and compared with "
@@ -121,10 +132,12 @@ reg("C14",
     gen=lambda seed, tier: (P.gen_abandon_programs(G.Rng(seed + 14), N(tier, 80, 800)) +
                             P.gen_commit_programs(G.Rng(seed + 15), N(tier, 40, 400))),
     monitors=[lambda rr: P.mon_abandon(rr) if "base" in rr.prog.tags else P.mon_commit(rr)],
+    extra=lambda seed, tier, flavours: LG.leg_fault_injection(LG.fault_cases_writes(G.Rng(seed + 141)), flavours[0], tier),
     nontrivial=lambda rr: has(rr, ("wdrop", "wcommit"), ()),
     rule="programs: two committed entries, then a writer (sync/async, keyed/by address, mapped/plain) dropped after "
          "0..all of its chunks, optionally with another successful write in between; plus the rejected-commit programs "
-         "of C08; listing, lookup and temp area afterwards")
+         "of C08; listing, lookup and temp area afterwards; plus commits that FAIL because of an injected errno (strace) at "
+         "every syscall class of a sync / async write: once the call has returned, the temp area holds no file")
 
 reg("C11",
     gen=lambda seed, tier: P.gen_metadata_programs(G.Rng(seed + 11), N(tier, 150, 2000)),
@@ -156,7 +169,8 @@ reg("C19",
     monitors=[P.mon_linkto],
     nontrivial=lambda rr: has(rr, ("link_to", "link_to_hash", "lcommit"), ("ok",)),
     rule="programs: a target file (0 B .. 40 kB), link_to by absolute or relative path (one-shot, by address, partial "
-         "reads before commit, wrong declared size / integrity, address already present as regular content), reads and "
+         "reads before commit, wrong declared size / integrity, address already present as regular content, working directory "
+         "changed between opening the handle and committing it), reads and "
          "metadata in both flavours, node kind, target unchanged, then target modified / removed and reads again")
 
 reg("C15",
@@ -165,7 +179,8 @@ reg("C15",
     nontrivial=lambda rr: True,
     rule="programs over 4 hostile keys (path-like, '..', NUL, controls, case / normalisation variants, 4 KiB): writes, "
          "every read-only call, a copy, removals; the directories next to the cache and the cache itself are dumped "
-         "before and after")
+         "before and after; in half of the programs one entry's content file is first torn / flipped / replaced / deleted, so "
+         "that the read-only calls run into verification failures - and must still leave the directory as it was")
 
 
 # ---------------------------------------------------------------------------------------------
@@ -210,24 +225,30 @@ reg("C03",
     monitors=[mon_content_valid, P.mon_size_matrix],
     extra=lambda seed, tier, flavours: merge(
         LG.leg_skeleton(P.gen_roundtrip_programs(G.Rng(seed + 31), N(tier, 10, 60)), flavours[0]),
-        LG.leg_kill_sweep(LG.kill_cases(G.Rng(seed + 32), N(tier, 4, 24)), flavours[0], max_points=N(tier, 14, 200))),
+        LG.leg_kill_sweep(LG.kill_cases(G.Rng(seed + 32), N(tier, 4, 24)), flavours[0], max_points=N(tier, 14, 200)),
+        LG.leg_fault_injection(LG.fault_cases_writes(G.Rng(seed + 33)), flavours[0], tier)),
     nontrivial=lambda rr: has(rr, ("dump",), ("ok",)),
     rule="(a) API: writes of every shape (one-shot / streamed / declared size right and wrong / keyed / by address / both "
          "flavours / sizes around 1 MiB), content area dumped and every file's digest recomputed with hashlib; "
          "(b) skeleton: the real mutation-syscall sequence of every op equals the model's call trace; (c) kill sweep: the "
          "real process is SIGKILLed on entry to its N-th mutating syscall for every N, a fresh process inspects the "
-         "directory; distinct = distinct (op, result-class) sequences / syscall skeletons / post-kill trees")
+         "directory; (d) errno injection at every syscall class of sync / async writes (the error paths of publication): "
+         "no content path is ever created or filled in place, the content area stays valid; "
+         "distinct = distinct (op, result-class) sequences / syscall skeletons / post-kill trees / fault classes")
 
 reg("C04",
     gen=lambda seed, tier: P.gen_bucket_programs(G.Rng(seed + 4), N(tier, 100, 2000)),
     monitors=[P.mon_bucket],
-    extra=lambda seed, tier, flavours: LG.leg_kill_sweep(LG.kill_cases(G.Rng(seed + 41), N(tier, 6, 40)), flavours[0],
-                                                        max_points=N(tier, 16, 200)),
+    extra=lambda seed, tier, flavours: merge(
+        LG.leg_kill_sweep(LG.kill_cases(G.Rng(seed + 41), N(tier, 6, 40)), flavours[0], max_points=N(tier, 16, 200)),
+        LG.leg_fault_injection(LG.fault_cases_writes(G.Rng(seed + 42)), flavours[0], tier)),
     nontrivial=lambda rr: rr.prog.tags.get("damage", "").startswith(("last record cut", "record")),
     rule="(a) torn appends: reference-encoded buckets with a record cut at every sampled byte length (incl. inside "
          "multi-byte UTF-8), lookups in both flavours, a further append, lookups again; (b) kill sweep over keyed writes, "
          "overwrites, index inserts with non-ASCII metadata and removals: SIGKILL at every mutating syscall, then a fresh "
-         "process checks old-or-new for the key, other keys intact, visible => readable, later write visible")
+         "process checks old-or-new for the key, other keys intact, visible => readable, later write visible; (c) errno "
+         "injection at every syscall class of keyed writes (sync / async): a write that answers ok has its content stored "
+         "(no entry made visible by swallowing a failed publication), a failed one leaves the old state, the retry works")
 
 reg("C13",
     gen=lambda seed, tier: P.gen_roundtrip_programs(G.Rng(seed + 13), N(tier, 20, 100)),
@@ -249,12 +270,14 @@ reg("C07",
     all_flavours=True,
     extra=lambda seed, tier, flavours: merge(
         LG.leg_concurrent(G.Rng(seed + 71), N(tier, 4, 40), flavours, procs=N(tier, 6, 12), ops_per_proc=N(tier, 60, 150)),
-        LG.leg_skeleton(gen_big_record_programs(seed, tier), "tokio" if "tokio" in flavours else flavours[0])),
+        LG.leg_skeleton(gen_big_record_programs(seed, tier), "tokio" if "tokio" in flavours else flavours[0]),
+        LG.leg_skeleton(P.gen_roundtrip_programs(G.Rng(seed + 73), N(tier, 6, 40)), flavours[0])),
     nontrivial=lambda rr: True,
     rule="(a) real concurrency: 6-12 processes (sync + async API, async-std and tokio binaries) on one cache: writers "
          "of the same key, of different keys with equal content, removers, readers, listers; every read must be a "
          "written value, every successful write must have a whole record, content valid; (b) single-write skeleton: an "
-         "index insert is exactly one write(2) on an O_APPEND descriptor, also for records of several MiB")
+         "index insert is exactly one write(2) on an O_APPEND descriptor, also for records of several MiB; (c) the whole "
+         "syscall skeleton of writes (atomic publication = one plain rename of the temp file) equals the model's")
 
 
 def gen_big_record_programs(seed, tier):
@@ -278,7 +301,8 @@ def gen_c12(seed, tier):
     r = G.Rng(seed + 12)
     progs = (P.gen_damage_programs(r, N(tier, 8, 60)) + P.gen_commit_programs(r, N(tier, 10, 100)) +
              P.gen_metadata_programs(r, N(tier, 10, 100)) + P.gen_history_programs(r, N(tier, 8, 60), full=True) +
-             P.gen_bucket_programs(r, N(tier, 10, 100)))
+             P.gen_bucket_programs(r, N(tier, 10, 100)) +
+             [p for p in P.gen_hostile_state_programs(r, N(tier, 9, 18)) if p.name.startswith("foreign")])
     # sync-only entry points have no async twin: drop them from the comparison programs
     for p in progs:
         p.ops = [o for o in p.ops if o.split(" ")[0] not in P.SYNC_ONLY and not o.startswith("dump")]
@@ -292,6 +316,7 @@ reg("C12",
     extra=lambda seed, tier, flavours: LG.leg_flavours(gen_c12(seed, tier), flavours),
     nontrivial=lambda rr: True,
     rule="each program (damaged content + every retrieval, commits with all declaration combinations, metadata fidelity, "
-         "histories with all removals, damaged buckets) is executed in four forms - all sync, all async, sync-then-async, "
+         "histories with all removals, damaged buckets, foreign checksummed records with odd integrity texts alone and after a "
+         "valid record of the same key) is executed in four forms - all sync, all async, sync-then-async, "
          "async-then-sync - on the async-std and the tokio binary (8 executions); the canonical result streams (default "
          "times masked) must be equal step by step; plus the model correspondence of histories on both binaries")
